@@ -1047,12 +1047,36 @@ fn outcome(text: &str) -> String {
     }
 }
 
+fn outcome_in_child(text: &str) -> String {
+    use std::io::Write;
+    use std::process::{Command, Stdio};
+    let exe = std::env::current_exe().unwrap();
+    let Ok(mut child) = Command::new(exe).arg("outcome").stdin(Stdio::piped()).stdout(Stdio::piped()).stderr(Stdio::null()).spawn() else {
+        return outcome(text);
+    };
+    child.stdin.take().unwrap().write_all(text.as_bytes()).ok();
+    match child.wait_with_output() {
+        Ok(o) if o.status.success() => String::from_utf8_lossy(&o.stdout).trim().to_string(),
+        Ok(o) => format!("{{\"crash\":{}}}", jstr(&format!("{}", o.status))),
+        Err(e) => format!("{{\"crash\":{}}}", jstr(&e.to_string())),
+    }
+}
+
 fn tie_framing(r: &mut Rng, n: usize) {
     let mut k = 0;
     let mut emit = |kind: &str, src: &str, text: &str| {
-        println!("{{\"f\":{k},\"kind\":{},\"src\":{},\"text\":{},\"outcome\":{}}}", jstr(kind), jstr(src), jstr(text), outcome(text));
+        // a mutated text is read in a child process: a malformed text can crash the reader (segmentation fault)
+        let oc = if kind == "real" { outcome(text) } else { outcome_in_child(text) };
+        println!("{{\"f\":{k},\"kind\":{},\"src\":{},\"text\":{},\"outcome\":{}}}", jstr(kind), jstr(src), jstr(text), oc);
         k += 1;
     };
+    // fixed malformed texts first: a value whose shape does not fit its data (crashes the reader: known finding)
+    if let Some(asm) = compile("\"ab\"") {
+        let t = asm.to_uasm();
+        for bad in ["{\"push\":[[2,4294967296000],\"\"]}", "{\"push\":[[3],[1,2]]}", "{\"push\":[[2,2],[1.5]]}"] {
+            emit("bad-numbers", "\"ab\"", &t.replacen("{\"push\":\"ab\"}", bad, 1));
+        }
+    }
     let mut progs = fixed_programs();
     while progs.len() < n {
         progs.push(gen_program(r));
@@ -1218,6 +1242,11 @@ fn main() {
                 "{{\"summary\":true,\"programs\":{},\"fixed\":{fixed},\"corpus\":{corpus_n},\"generated\":{n},\"compiled\":{},\"reread_ok\":{},\"runs\":{},\"run_errors\":{},\"with_output\":{},\"node_differs_benign\":{},\"constants_checked\":{},\"constants_malformed_already_in_the_original\":{},\"nondeterministic\":{},\"text_fixpoint_differs\":{},\"violations\":{}}}",
                 st.programs, st.compiled, st.reread_ok, st.runs, st.run_errors, st.with_output, st.node_differs_benign, st.constants, st.orig_malformed, st.nondeterministic, st.text_fixpoint_differs, st.violations
             );
+        }
+        "outcome" => {
+            let mut text = String::new();
+            std::io::Read::read_to_string(&mut std::io::stdin(), &mut text).ok();
+            println!("{}", outcome(&text));
         }
         "tie-values" => {
             let n: usize = std::env::args().nth(2).and_then(|s| s.parse().ok()).unwrap_or(100);
